@@ -320,8 +320,37 @@ impl Walk<'_> {
                             hex(&witness)
                         );
                     }
+                    // the whole-string entry points must agree with the byte-wise walk on a string
+                    // that runs into a dead end, also when more input follows it
+                    for extra in [None, Some(self.symbols[0])] {
+                        let mut text = self.prefix.clone();
+                        text.extend(extra);
+                        let many = self.dfa.transition_many(self.dfa.start(), text.iter().copied());
+                        if many.is_some() || self.dfa.matches(text.iter().copied()) {
+                            fail!(
+                                "many:dead-end-not-reported",
+                                "expression {} string {}: the byte-wise walk dies at byte #{}, but transition_many={:?} matches={}",
+                                self.expr,
+                                hex(&text),
+                                self.prefix.len() - 1,
+                                many,
+                                self.dfa.matches(text.iter().copied())
+                            );
+                        }
+                    }
                 }
                 Some(next) => {
+                    let many = self.dfa.transition_many(self.dfa.start(), self.prefix.iter().copied());
+                    if many != Some(next) {
+                        fail!(
+                            "many:differs-from-stepwise",
+                            "expression {} string {}: transition_many gives {:?}, stepping byte by byte gives {:?}",
+                            self.expr,
+                            hex(&self.prefix),
+                            many,
+                            next
+                        );
+                    }
                     if self.root.is_void(d2) {
                         self.live_void += 1;
                     }
